@@ -159,8 +159,43 @@ def run_threaded(case):
     return None, info
 
 
+def run_giant(case):
+    """Hundreds of thousands of observations on one tally / counter: integer data,
+    exact sums as reference, relative tolerance 1e-7."""
+    import random as _random
+    from fractions import Fraction
+    rng = _random.Random(case["seed"])
+    info = {"accepted": case["n"], "rejected": 0, "inits": 1, "published": 0}
+    st = Tally("t")
+    ct = Counter("c")
+    s1 = s2 = 0
+    for _ in range(case["n"]):
+        v = rng.randrange(0, 10)
+        st.register(float(v))
+        ct.register(v)
+        s1 += v
+        s2 += v * v
+    n = case["n"]
+    mean = Fraction(s1, n)
+    var = Fraction(s2, n) - mean * mean
+    if ct.count() != s1 or ct.n() != n or st.n() != n:
+        return ("getter", "after %d observations count=%r n=%r / tally n=%r, exact %d / %d"
+                % (n, ct.count(), ct.n(), st.n(), s1, n)), info
+    for name, exact in (("sum", Fraction(s1)), ("mean", mean), ("variance", var)):
+        got = getattr(st, name)()
+        if not isinstance(got, (int, float)) or \
+                abs(Fraction(got) - exact) > abs(exact) * Fraction(1, 10 ** 7):
+            return ("getter", "after %d observations on one tally %s() returns %r, the "
+                    "definition gives %.12g (relative tolerance 1e-7)"
+                    % (n, name, got, float(exact))), info
+    return None, info
+
+
 def generate(seed, tier, idx=0):
     rng = common.rng_for(seed, "case")
+    if rng.random() < (1e-4 if tier == "quick" else 1e-3):
+        return {"kind": "giant", "variant": "plain", "regime": "giant",
+                "n": rng.choice([260000, 520000]), "seed": rng.getrandbits(32), "ops": []}
     if rng.random() < 0.12:
         return gen_threaded(rng, seed)
     if rng.random() < 0.12:
@@ -199,7 +234,8 @@ def generate(seed, tier, idx=0):
         elif r < 0.09:
             ops.append(["init"])
         elif r < 0.16:
-            ops.append(["query", rng.choice([0.05, 0.5, 1.0, 0.01, 1e-6])])
+            ops.append(["query", rng.choice([0.05, 0.5, 1.0, 0.01, 1e-6, 0.02, 0.1, 0.2, 0.001,
+                                             0.025, 0.15, round(rng.uniform(0.001, 0.999), 3)])])
     if rng.random() < 0.5:
         ops.insert(0, ["query", 0.05])
     return {"kind": "tally", "variant": rng.choice(["plain", "event", "event+sub", "event+sub"]),
@@ -413,7 +449,9 @@ def run_counter(case):
 
 
 def execute(case):
-    if case.get("threaded"):
+    if case["kind"] == "giant":
+        f, info = run_giant(case)
+    elif case.get("threaded"):
         f, info = run_threaded(case)
     else:
         f, info = run_tally(case) if case["kind"] == "tally" else run_counter(case)
